@@ -291,11 +291,38 @@ def histories(ctx, eng):
         v = Validator()
         prev = "start"
         for step in range(r.randint(5, 40)):
-            op = r.choice(["validate-v", "validate-v", "validate", "export-v", "export", "expanded"])
+            op = r.choice(["validate-v", "validate-v", "validate", "export-v", "export", "expanded", "validate-v", "export-v"])
+            if r.random() < 0.25:
+                # calls whose own answer is not judged here, made for what they may leave behind on the Validator: the expanded
+                # (un-pruned) schema asked for WITH a version, and a call that fails because the version is given as text
+                side = r.choice(["expanded-with-version", "version-as-text"])
+                sv = r.choice(bounds + [round(b - 0.04, 2) for b in bounds])
+                sname = r.choice(docs)[0]
+                try:
+                    if side == "expanded-with-version":
+                        v.get_expanded_schema(sname, sv)
+                    else:
+                        v.validate(copy.deepcopy(r.choice([x for x in docs if x[0] == sname])[1]), schema_name=sname, version=str(sv))
+                except ContractBroken:
+                    raise
+                except Exception:
+                    res.count("history_side_calls_raised")
+                flush(res)
+                res.count("history_side_calls")
+                prev = side
+                if r.random() < 0.7:
+                    ver0, name0 = sv, sname  # ... and the next judged call asks for exactly that version and schema
+                else:
+                    ver0 = name0 = None
+            else:
+                ver0 = name0 = None
             ver = r.choice(bounds + [round(b + 0.1, 2) for b in bounds[:4]] + [round(b - 0.04, 2) for b in bounds] + [round(b + 0.04, 2) for b in bounds])
             if float(ver).is_integer() and r.random() < 0.5:
                 ver = int(ver)  # the same version given as an int (7 and 7.0 are one version, spelled "7" and "7.0")
             name, d = r.choice(docs)
+            if ver0 is not None:
+                ver = ver0
+                name, d = r.choice([x for x in docs if x[0] == name0])
             case = {"part": "history", "history": hi_, "step": step, "op": op, "version": ver, "schema": name, "previous": prev}
             res.count("history_steps")
             res.seen("call-pairs", f"{prev}->{op}")
